@@ -220,6 +220,7 @@ pub fn work_main(a: &WorkArgs) {
                     violation: Some(v.clone()),
                     minimised: false,
                     note: format!("batch index {} of worker range {}..{}", i, a.from, a.to),
+                    origin: Some((a.from, i, a.no_yield)),
                 };
                 save(&path, &f);
                 out.candidates.push(path);
@@ -558,7 +559,15 @@ pub fn batch_main(b: &BatchArgs) -> BatchOut {
             continue;
         }
         seen_classes.push(target.clone());
-        out.violations.push(minimise_and_store(f, &c, &b.replay_dir, &b.work_dir));
+        let g = GenCtx::new(&pool, &refs);
+        let regen = |i: u64, no_yield: bool| -> Scenario {
+            let mut sc = generate(&g, scenario_seed(b.verif_seed, i));
+            if no_yield {
+                sc.yield_mask = 0;
+            }
+            sc
+        };
+        out.violations.push(minimise_and_store(f, &c, &b.replay_dir, &b.work_dir, Some(&regen)));
     }
     out.wall_s = t0.elapsed().as_secs_f64();
     if !b.out_path.is_empty() {
@@ -567,14 +576,38 @@ pub fn batch_main(b: &BatchArgs) -> BatchOut {
     out
 }
 
-pub fn minimise_and_store(f: ReplayFile, cand_path: &str, replay_dir: &str, work_dir: &str) -> ViolationReport {
+pub fn minimise_and_store(f: ReplayFile, cand_path: &str, replay_dir: &str, work_dir: &str, regen: Option<&dyn Fn(u64, bool) -> Scenario>) -> ViolationReport {
+    let mut f = f;
     let target = f.violation.clone().unwrap();
     let steps_before: u64 = f.scenarios.iter().map(|s| s.total_ops()).sum();
     let seed = f.scenarios.last().map(|s| s.seed).unwrap_or(0);
     let final_path = format!("{}/C13-{}-{}-{:016x}.json", replay_dir, f.engine, f.profile, seed);
     // does the unminimised candidate reproduce strictly in a fresh process?
-    let strict_ok = matches!(exec_file_fresh(cand_path, "strict"), Ok(o) if o.violation.as_ref().map(|v| v.same_class(&target)).unwrap_or(false));
-    let mut sh = Shrinker { target: target.clone(), tmp_path: format!("{}/shrink-tmp-{:016x}.json", work_dir, seed), evals: 0, log: Vec::new() };
+    let mut strict_ok = matches!(exec_file_fresh(cand_path, "strict"), Ok(o) if o.violation.as_ref().map(|v| v.same_class(&target)).unwrap_or(false));
+    if !strict_ok {
+        // The violation does not show when the scenario runs alone in a fresh process: it depends
+        // on what the worker process did before (process-wide state). Rebuild the worker's whole
+        // history up to and including the failing scenario; that sequence is the replay unit.
+        if let (Some((from, idx, no_yield)), Some(regen)) = (f.origin, regen) {
+            let mut seq = f.clone();
+            seq.scenarios = (from..=idx).map(|i| regen(i, no_yield)).collect();
+            seq.decisions = vec![Vec::new(); seq.scenarios.len()];
+            save(cand_path, &seq);
+            if let Ok(o) = exec_file_fresh(cand_path, "seeded") {
+                if o.violation.as_ref().map(|v| v.same_class(&target)).unwrap_or(false) {
+                    let n = o.scenario_index.map(|i| i + 1).unwrap_or(seq.scenarios.len());
+                    seq.scenarios.truncate(n);
+                    seq.decisions = o.decisions.clone();
+                    seq.decisions.truncate(n);
+                    seq.note = format!("{}; needs the in-process history of {} earlier scenarios", seq.note, n - 1);
+                    save(cand_path, &seq);
+                    strict_ok = matches!(exec_file_fresh(cand_path, "strict"), Ok(o) if o.violation.as_ref().map(|v| v.same_class(&target)).unwrap_or(false));
+                    f = seq;
+                }
+            }
+        }
+    }
+    let mut sh = Shrinker { target: target.clone(), tmp_path: format!("{}/shrink-tmp-{:016x}.json", work_dir, seed), evals: 0, log: Vec::new(), schedule_sensitive: false };
     let min = sh.shrink(f.clone());
     let steps_after: u64 = min.scenarios.iter().map(|s| s.total_ops()).sum();
     save(&final_path, &min);
@@ -687,6 +720,7 @@ fn world_file(g: &GenCtx, tables: &[Vec<u32>; 4], verif_seed: u64, w: u64) -> (R
         n_crs: 1,
         probe: false,
         mode: format!("world_prologue:{}", variant),
+        sched_salt: 0,
     };
     for k in 0..prefix {
         let table = PERMS[perm_ix][k];
@@ -727,6 +761,7 @@ fn world_file(g: &GenCtx, tables: &[Vec<u32>; 4], verif_seed: u64, w: u64) -> (R
         violation: None,
         minimised: false,
         note: format!("world {}: order {:?} prefix {} variant {}", w, PERMS[perm_ix].iter().map(|t| TABLE_NAMES[*t]).collect::<Vec<_>>(), prefix, variant),
+        origin: None,
     };
     (f, perm_ix, prefix, variant)
 }
@@ -827,7 +862,7 @@ pub fn worlds_main(b: &WorldArgs) -> WorldsOut {
                             f.scenarios.truncate(o.scenario_index.map(|i| i + 1).unwrap_or(f.scenarios.len()));
                             f.decisions.truncate(f.scenarios.len());
                             save(&path, &f);
-                            out.violations.push(minimise_and_store(f, &path, &b.replay_dir, &b.work_dir));
+                            out.violations.push(minimise_and_store(f, &path, &b.replay_dir, &b.work_dir, None));
                         }
                     }
                 }
